@@ -235,7 +235,7 @@ class C05(DimwiseCheck):
             "reported value is compared with (1) the coefficient-weighted sum of component results recomputed by an independent composite "
             "trapezoid on the reported point lists, (2) evaluate_final_combi() (twice) on a deep copy, (3) the same history run with "
             "reevaluate_at_end=True, (5) sum w f over get_points_and_weights(). distinct_nontrivial counts distinct refined structures at which a stop was checked")
-    expected_probes = ["rebalancing", "new_lmax", "recalculating", "stop_checked", "continued", "standard_call_checked", "dim_adaptive_refined"]
+    expected_probes = ["rebalancing", "new_lmax", "recalculating", "stop_checked", "continued", "standard_call_checked", "dim_adaptive_refined", "stopped_by_time_budget"]
     real = REAL + ["SpatiallyAdaptiveExtendScheme", "RefinementObjectExtendSplit", "TrapezoidalGrid", "StandardCombi", "DimAdaptiveCombi"]
     stub = STUB + ["DimAdaptiveCombi.calculate_surplus answers (keyed draws: the refinement schedule)"]
 
@@ -291,6 +291,15 @@ class C05(DimwiseCheck):
             cfg["dim"] = min(cfg["dim"], 2); cfg["a"] = cfg["a"][:cfg["dim"]]; cfg["b"] = cfg["b"][:cfg["dim"]]
             cfg["lmin"] = min(cfg["lmin"], 2); cfg["lmax"] = max(2, min(cfg["lmax"], cfg["lmin"] + 1))
             cfg["max_intervals"], cfg["max_points"] = 24, 400     # beyond that the run is cut (excluded), these rules are slow
+        t = stream(rk, "time_budget")
+        if t.random() < 0.3:
+            # a time budget (max_time, in seconds of the simulated clock: one tick per clock read, seeded jumps) next to the point limit of
+            # some driver calls: whichever binds first stops the run - a stop the point limits alone never produce at that position
+            for op in ops:
+                if op[0] != "step" and t.random() < 0.7:
+                    op[1]["max_time"] = t.choice([0.003, 0.006, 0.01, 0.015, 0.02, 0.03, 0.05, 0.08])
+                    if cfg["grid"] in ("GlobalTrapezoidalGrid", "TrapezoidalGrid") and not cfg.get("long_narrow"):
+                        op[1]["max_evaluations"] = max(op[1]["max_evaluations"], 250)     # so that the budget, not the point limit, binds
         return {"config": cfg, "ops": ops}
 
     def simplify(self, s):
@@ -309,6 +318,8 @@ class C05(DimwiseCheck):
             m = op[1]["max_evaluations"]
             if op[0] == "step":
                 continue
+            if "max_time" in op[1]:
+                n = copy.deepcopy(s); del n["ops"][i][1]["max_time"]; yield n
             for v in (0, 8, 30, 100):
                 if v < m and (i == 0 or v > s["ops"][i - 1][1]["max_evaluations"]):
                     n = copy.deepcopy(s); n["ops"][i][1]["max_evaluations"] = v; yield n
@@ -325,20 +336,24 @@ class C05(DimwiseCheck):
         orc = DS.ResultOracle(sim)
         out = []
         for i, op in enumerate(sched["ops"]):
+            kw = {"max_time": op[1]["max_time"]} if "max_time" in op[1] else {}
             try:
                 if op[0] == "run":
-                    ret = sim.perform(tol=-1.0, max_evaluations=op[1]["max_evaluations"], reevaluate_at_end=reevaluate)
+                    ret = sim.perform(tol=-1.0, max_evaluations=op[1]["max_evaluations"], reevaluate_at_end=reevaluate, **kw)
                 elif op[0] == "step":
                     ctx.probe("single_step_stop")
                     ret = sim.cont(tol=-1.0, max_evaluations=int(sim.sa.get_total_num_points()))
                 elif op[0] == "restart":
                     ctx.probe("container_restart"); ctx.fault("container_restart")
-                    ret = sim.perform(tol=-1.0, max_evaluations=op[1]["max_evaluations"], reevaluate_at_end=reevaluate, refinement_container=sim.last_ret[0])
+                    ret = sim.perform(tol=-1.0, max_evaluations=op[1]["max_evaluations"], reevaluate_at_end=reevaluate, refinement_container=sim.last_ret[0], **kw)
                 else:
                     ctx.probe("continued")
-                    ret = sim.cont(tol=-1.0, max_evaluations=op[1]["max_evaluations"])
+                    ret = sim.cont(tol=-1.0, max_evaluations=op[1]["max_evaluations"], **kw)
             except DS.StopRun:
                 raise Excluded("no stop within the evaluation cap / size budget")
+            if kw and not reevaluate and int(sim.sa.get_total_num_points()) <= op[1]["max_evaluations"]:
+                # neither the tolerance (-1) nor the point limit stopped this call: the time budget did
+                ctx.probe("stopped_by_time_budget"); ctx.fault("time_budget")
             ctx.state(sim.structure_key())
             out.append((ret, sim, orc))
             yield i, op, ret, sim, orc
@@ -358,12 +373,19 @@ class C05(DimwiseCheck):
             last = i == len(sched["ops"]) - 1
             want, S, n = orc.at_stop(ret[3], label, points_weights=nodal, final_combi=(op[0] != "step" or last))
             ctx.probe("stop_checked")
-            plain.append((np.array(ret[3], dtype=float), S, n, orc))
+            plain.append((np.array(ret[3], dtype=float), S, n, orc, sim.structure_key()))
         if "result" in ctx.tainted:
             return
         # (3) the same history with re-evaluation at the end of every driver call
         ctx2 = ctx
-        for (i, op, ret, sim, orc), (rep, S, n, _) in zip(self.drive(sched, ctx2, True), plain):
+        for (i, op, ret, sim, orc), (rep, S, n, _, skey) in zip(self.drive(sched, ctx2, True), plain):
+            if sim.structure_key() != skey:
+                # only possible under a time budget: the re-evaluation reads the clock too, so a later call's budget can run out at
+                # another evaluation - the two histories are then different histories and are not compared any further
+                if not any("max_time" in o[1] for o in sched["ops"]):
+                    ctx.violate("reevaluate_at_end_unchanged", orc.sig(stop="%s#%d" % (op[0], i)), "%s#%d: with reevaluate_at_end=True the run stops in another refinement state" % (op[0], i), taint="result")
+                ctx.probe("reevaluation_twin_stopped_elsewhere_under_time_budget")
+                return
             ok, tol = orc.close(np.array(ret[3], dtype=float), rep, S, n)
             ctx.fault("reevaluate_at_end")
             if not ok:
